@@ -488,11 +488,11 @@ def freeze_args(args):
             t.origin = v.origin
             t.orig_reader = rd
             return t
-        if isinstance(v, list):
+        if type(v) is list:
             return [fz(x) for x in v]
-        if isinstance(v, tuple):
+        if type(v) is tuple:
             return tuple(fz(x) for x in v)
-        if isinstance(v, dict):
+        if type(v) is dict:
             return {k: fz(x) for k, x in v.items()}
         return v
 
@@ -609,6 +609,7 @@ def verify_contract(loader, registry, con, dim_override=None, observed=False, in
             path = Path(decisions, observed_refinements=observed, prove_timeout_ms=timeout_ms, degraded=degraded)
             path.enter()
             interp = None
+            con._cur_case = case
             tag = "%s%s" % (con.target, "" if case is None else "[%s]" % (case,))
             try:
                 c = CCtx(path, dim_override=dim_override)
@@ -629,6 +630,7 @@ def verify_contract(loader, registry, con, dim_override=None, observed=False, in
                 snaps = snapshot_args(args)
                 pre = freeze_args(args)
                 interp = Interp(loader, registry, path, top=con.target, inline=inline)
+                c.interp = interp
                 exc = None
                 result = None
                 try:
